@@ -100,6 +100,17 @@ Allowed(e) ==
              Fits(k, ob) == (k <= 125 => ob # 999) /\ (k >= -120 => ob # -999) /\ (ob # 999 /\ ob # -999 => ob \in (k - 1)..(k + 1))
          IN /\ e.panic = 0
             /\ Fits(kt, e.et) /\ Fits(kt + 2, e.er - 1 + 1) /\ Fits(kt + 8, e.ed)
+    \* "rlen": the radius of to_polar (e.r2) / to_spherical (e.r3) of the vector e.v (scaled so that its largest
+    \* component is about 2^13) under float backend e.be: the length, to 1 % for the approximating backends
+    \* (their square root is good to 5e-3) and to 0.25 % otherwise
+    [] e.op = "rlen" ->
+         LET n2 == e.v[1] * e.v[1] + e.v[2] * e.v[2]
+             n3 == n2 + e.v[3] * e.v[3]
+             den == IF e.be \in {"mm", "none"} THEN 50 ELSE 200
+         IN /\ e.panic = 0
+            \* (components and radii are rounded to integers: 2 r + 1 of slack per radius)
+            /\ (n2 > 4000 => Near(e.r2 * e.r2, n2, n2 \div den + 4 * e.r2 + 64))
+            /\ Near(e.r3 * e.r3, n3, n3 \div den + 4 * e.r3 + 64)
     [] e.op = "trig" ->
          /\ e.panic = 0
          /\ e.s2 = e.s /\ e.c2 = e.c
